@@ -39,8 +39,7 @@
 /* used to validate template job structure before computing session_id */
 static inline int
 is_job_invalid_light(IMB_MGR *state, const IMB_CIPHER_MODE cipher_mode, const IMB_HASH_ALG hash_alg,
-                     const IMB_CIPHER_DIRECTION cipher_direction,
-                     const IMB_KEY_SIZE_BYTES key_len_in_bytes)
+                     const IMB_CIPHER_DIRECTION cipher_direction, const uint64_t key_len_in_bytes)
 {
         if (cipher_direction != IMB_DIR_DECRYPT && cipher_direction != IMB_DIR_ENCRYPT &&
             cipher_mode != IMB_CIPHER_NULL) {
@@ -292,7 +291,7 @@ is_job_invalid_light(IMB_MGR *state, const IMB_CIPHER_MODE cipher_mode, const IM
 __forceinline int
 is_job_invalid(IMB_MGR *state, const IMB_JOB *job, const IMB_CIPHER_MODE cipher_mode,
                const IMB_HASH_ALG hash_alg, const IMB_CIPHER_DIRECTION cipher_direction,
-               const IMB_KEY_SIZE_BYTES key_len_in_bytes)
+               const uint64_t key_len_in_bytes)
 {
         const uint64_t auth_tag_len_fips[] = {
                 0,  /* INVALID selection */
